@@ -18,4 +18,6 @@ INVARIANT LastWriteWins
 INVARIANT TargetReached
 INVARIANT CertPoints
 INVARIANT PfrBack
+INVARIANT ChangeShows
+INVARIANT ReadEveryStep
 CHECK_DEADLOCK FALSE
